@@ -22,6 +22,13 @@ def add_list(rep, prop):
         deductive(rep, prop, TG.FUNCS, "contracts.tight", select=(lambda q, ob, rel: True) if prop == "C01" else None)
 
 
+def add_refdef(rep, prop):
+    from ..propbase import deductive
+    import contracts.refdef as RD
+
+    deductive(rep, prop, RD.FUNCS, "contracts.refdef", select=(lambda q, ob, rel: True) if prop == "C01" else None)
+
+
 def run(tier, seed):
     rep = Report("C17", tier, seed, "other")
     from .. import normalize, reads
